@@ -2,6 +2,7 @@
 Driver + monitors (vt/mon/timecode.py). Thorough: every frame count 0..24h for 8 rates (exhaustive), ClockTime on a
 dense grid; quick: dense around the drop-frame / minute / hour boundaries, strided elsewhere."""
 from fractions import Fraction
+import copy
 import math
 
 from vt.mon import timecode as mon
@@ -21,7 +22,7 @@ ASSUMPTIONS = [
 ]
 REQUIRED = ["mon:from_frames", "mon:to_frames", "mon:to_temporal_offset", "mon:from_seconds", "mon:from_seconds:boundary",
             "mon:add_frames", "mon:clock_from_seconds", "drv:parse", "drv:monotone-steps", "drv:clock-monotone-steps",
-            "drv:float-boundary", "drv:imsc-frames-attr"]
+            "drv:float-boundary", "drv:imsc-frames-attr", "drv:observe-after-add"]
 SHARD_TIMEOUT = {"quick": 900, "thorough": 3600}
 
 RATES = [str(r) for r in R.ALL_RATES]
@@ -139,6 +140,14 @@ def run_frames(ctx, p):
           prev_tc.add_frames()
           if mon.lab(prev_tc) != l:
             viol("add-one", f"frame {n - 1} add_frames() -> {mon.lab(prev_tc)}, expected {l}", n)
+          # a time code that has been observed and then advanced answers like a fresh one (no stale derived state), and so does its copy
+          ctx.count("drv:observe-after-add")
+          for who, o in (("the advanced object", prev_tc), ("a copy of the advanced object", copy.copy(prev_tc))):
+            got = (o.to_frames(), o.to_temporal_offset(), str(o), o == tc)
+            want = (n, Fraction(n) / rate, s, True)
+            if got != want:
+              viol("stale-after-add", f"frame {n - 1} observed, then add_frames(): {who} answers (to_frames, offset, str, == fresh) = {got}, "
+                                      f"a fresh time code for frame {n} answers {want}", n)
         except Exception as e:  # pylint: disable=broad-except
           viol("add-raise", f"add_frames raised {type(e).__name__}: {e}", n)
       # n-step addition equals n single additions (sampled)
@@ -146,7 +155,11 @@ def run_frames(ctx, p):
         k = rng.choice([2, 3, 10, 29, 30, 59, 60, 1798, 1800, 17982, rng.randrange(2, 200000)])
         try:
           a = SmpteTimeCode.from_frames(n, rate)
+          a.to_temporal_offset(); a.to_frames(); str(a)      # observed before it is advanced
           a.add_frames(k)
+          if a.to_temporal_offset() != Fraction(n + k) / rate or str(a) != str(SmpteTimeCode.from_frames(n + k, rate)):
+            viol("stale-after-add", f"frame {n} observed, then add_frames({k}): offset {a.to_temporal_offset()} / str {a}, expected "
+                                    f"{Fraction(n + k) / rate} / {SmpteTimeCode.from_frames(n + k, rate)}", n)
           b = SmpteTimeCode.from_frames(n, rate)
           for _ in range(min(k, 64)):
             b.add_frames()
